@@ -9,7 +9,7 @@ RULE = ('well-formed messages: random subsets of the configured elements (every 
         'thorough adds every single element at many lengths; non-trivial = distinct message with at least one data element')
 EXHAUSTIVE = {}
 ASSUMPTIONS = ['decimal typed fields and non-canonical date strings are outside the model (Unmodelled, skipped by the comparer)',
-               'DE43_* entries come from the regex engine (oracle): only their key prefix is checked']
+               'DE43_* entries are compared with the regex model (pattern translated from the configuration on every run)']
 
 
 def gen(rng, tier):
@@ -133,7 +133,7 @@ def judge(case, io_, mo):
             return ps
         if mo[0] != io_['dumps']:
             ps.append({'kind': 'corr', 'sig': 'dumps', 'msg': 'dumps differs from model: %s vs %s' % (io_['dumps'][:120], mo[0][:120])})
-        elif len(mo) > 1 and (not mo[1].startswith('OK ') or iu.canon_entries(mo[1][3:]) != iu.canon_entries(lo[3:], drop_other=True)):
+        elif len(mo) > 1 and (not mo[1].startswith('OK ') or iu.canon_entries(mo[1][3:]) != iu.canon_entries(lo[3:])):
             ps.append({'kind': 'corr', 'sig': 'loads', 'msg': 'loads differs from model: %s vs %s' % (lo[:150], mo[1][:150])})
     return ps
 
